@@ -27,8 +27,8 @@ TRUSTED_BASE = [
     "Coq 8.16.1 kernel incl. its vm_compute evaluator (no native_compute)",
     "axioms: none declared; Print Assumptions of every property theorem parsed on each run",
     "no extraction: the model is evaluated inside Coq (vm_compute) on generated cases",
-    "Python harness: generators, snapshot of private fields, id canonicalisation, Gallina literal printer",
-    "CPython list / identity / exception semantics as modelled (DESIGN section 7)",
+    "Python harness: generators, snapshot through the public accessors, id canonicalisation, Gallina literal printer",
+    "CPython list / identity / exception semantics as modelled (DESIGN sections 7 and 12.7)",
 ]
 
 
